@@ -71,7 +71,7 @@ def run(ctx):
     for f, t, g, loc, kind in sites:
         if kind != 'state':
             continue
-        from rules.C13 import recv_type
+        from rules.C13 import recv_type, owner_adt
         sites2 = [(f, loc)]
         if len(loc) == 1 and 2 <= loc[0] <= f.arg_count:
             # the receiver is a by-reference parameter (a helper shared by several streams): follow it to the callers' fields
@@ -81,7 +81,7 @@ def run(ctx):
                 continue
             sites2 = res
         for (sf, sloc) in sites2:
-            key = (self_adt(sf), recv_type(lib, sf, sloc))
+            key = ((owner_adt(lib, sf, sloc) or self_adt(sf)), recv_type(lib, sf, sloc))
             path = '.'.join(str(x) for x in sloc[1:])
             if key in ALLOW:
                 bound, need_clear = ALLOW[key]
